@@ -265,7 +265,7 @@ func ExtractNalusOfTypeFromByteStream(nType NaluType, data []byte, stopAtVideo b
 				}
 			}
 			currNaluStart = i + 3
-			if currNaluStart < n-1 {
+			if currNaluStart < n {
 				nextNaluType := GetNaluType(data[currNaluStart])
 				if stopAtVideo && nextNaluType < 6 { // Video nal unit type
 					return nalus
